@@ -48,6 +48,17 @@ RelScale == 100000000      \* measured tier: relative to ||X||^2, rint(x * 10^8)
 \* slack of the inequalities in exchange quanta: each of the J logged tails is rounded by <= 1/2
 Slack(J) == J + 2
 
+\* dtype of the array handed to the decomposition.  The contract (ranks, bounds) does not depend on it;
+\* integer dtypes are only meaningful for integer-valued tensors (all matching tensors, the "integer"
+\* family of the measured tier).  err^2 is always measured in float64 against the float64 tensor.
+Dtypes == {"float64", "float32", "int64", "int32"}
+IntegerFams == {"integer"}
+\* float32: the reconstruction carries a relative perturbation delta of a few 2^-24 per entry, which moves
+\* err^2 / ||X||^2 by 2 <X - rec, delta> / ||X||^2 + O(1e-13).  The rounding noise is nearly orthogonal to
+\* the residual; measured over 1 345 dense calls the shift was <= 4 quanta (4e-8).  Slack32 = 2e-7.
+Slack32 == 20
+SlackFor(J, dtype) == IF dtype = "float32" THEN Slack32 ELSE Slack(J)
+
 Algs == {"tucker", "tt", "ttm", "tr"}
 Svds == {"truncated_svd", "symeig_svd", "randomized_svd"}
 Iters == {0, 1, 50}        \* n_iter_max of HOOI (0 = the HOSVD initialisation itself)
@@ -254,7 +265,7 @@ VARIABLE cfg
 NoCfg == [op |-> "none"]
 Init == \/ cfg \in {[op |-> "shapeT", shape |-> s] : s \in ShapeSet}      \* -> matching tensors of that shape
         \/ cfg \in {[op |-> "shapeC", shape |-> s] : s \in ShapeSet}      \* -> rank configurations of that shape
-        \/ cfg = [op |-> "options", svds |-> Svds, iters |-> Iters]
+        \/ cfg = [op |-> "options", svds |-> Svds, iters |-> Iters, dtypes |-> Dtypes]
 Next == \/ /\ cfg.op = "shapeT"
            /\ cfg' \in {[op |-> "place", shape |-> cfg.shape, idx |-> ix] :
                            ix \in UNION {IdxSets(cfg.shape, p) : p \in 1..MinOf(4, MinDim(cfg.shape))}}
